@@ -43,14 +43,7 @@ def run(env, rep):
     rep.check("C07.R1", "format-bits", len(fmt_no) == 4 and sorted(fmt_no.values()) == [0, 1, 2, 3],
               "format bits written: %s" % masks, "the basic header's format bits are %s; the specification says %s" % (masks, spec["format_bits"]), m.b["add_chunk"].span)
     # the reader's table must be the same
-    rbits = {}
-    for p in grammar.reads(env, m.b["get_format"].key).paths:
-        w = [t for t in p if t[0] == "when"]
-        r = [t for t in p if t[0] == "returns"]
-        if w and r and re.match(r"^ChunkHeaderFormat::(\w+)$", r[-1][1]):
-            vn = r[-1][1].split("::")[1]
-            v = w[-1][2]
-            rbits[vn] = int(v) if v.isdigit() else ({0, 64, 128, 192} - {int(x) for x in v[6:].split(",")}).pop() if v.startswith("other:") and len(v[6:].split(",")) == 3 else None
+    rbits = {vn: cls * 64 for vn, cls in chunk.reader_format_table(m).items()}
     rep.check("C07.R1", "format-bits:reader-agrees", rbits == masks, "reader and writer use the same format-bit table",
               "writer masks %s, reader masks %s" % (masks, rbits), m.b["get_format"].span)
     n = 0
